@@ -71,7 +71,7 @@ pub fn run(ctx: &mut Ctx) {
                             break;
                         }
                         let ones = v.values.iter().filter(|b| **b).count();
-                        if (ones as f64 - *sp as f64 * n).abs() > 0.005 * n + 1.0 {
+                        if !crate::refm::true_count_ok(*size as usize, *sp, ones) {
                             ctx.rec.violation("C13", "random_bool_vector|true-count", &format!("size {} sparsity {} -> {} TRUE bits (expected about {})", size, sp, ones, *sp as f64 * n), "");
                             break;
                         }
